@@ -11,7 +11,7 @@
 import Tranp.Lemmas.Infer
 import Tranp.Lemmas.InferScope
 import Tranp.Lemmas.InferLambda
-import Tranp.Model.InferOps
+import Tranp.Lemmas.InferOps
 import Tranp.Generated.InferShape
 
 namespace Tranp.C03
@@ -659,6 +659,16 @@ theorem sound_user_operator {ct : ClassTable} {W : World} {ps : OpParams} {lc rc
   · simp only [evalUserOp, hd] at hev
     exact hW.call_ok x lc d [y] m v hx hm (Or.inl hk) hev
 
+/-- non-vacuity of `sound_user_operator` — and of `WorldConf` over a NON-EMPTY class table (an override, a two-level descendant): the
+    world `opWorld` of the witness classes satisfies it (Lemmas/InferOps.lean `opWorld_conf`), `nu + bg` evaluates there to a `Num`
+    instance, and the operands conform to their classes -/
+example : WorldConf opWitness.1 opWorld ∧
+    evalUserOp opWorld (.obj ['N', 'u', 'm'] [] []) .add (.obj ['B', 'i', 'g'] [] []) = .ok (.obj ['N', 'u', 'm'] [] []) ∧
+    Conf opWitness.1 (.obj ['N', 'u', 'm'] [] []) (.cls ['N', 'u', 'm'] .nil) ∧
+    Conf opWitness.1 (.obj ['B', 'i', 'g'] [] []) (.cls ['B', 'i', 'g'] .nil) ∧
+    Conf opWitness.1 (.obj ['B', 'i', 'g', '2'] [] []) (.cls ['N', 'u', 'm'] .nil) :=
+  ⟨opWorld_conf, by rfl, opWitness_obj (by decide +kernel), opWitness_obj (by decide +kernel), opWitness_obj (by decide +kernel)⟩
+
 /-- non-vacuity of `user_operator_partial`: `nu + bg` (one level) is typed `Num`, like CPython's `Num.__add__(nu, bg)` -/
 example : tryStepAny opWitness.1 opWitness.2 (.cls ['N', 'u', 'm'] .nil) .add (.cls ['B', 'i', 'g'] .nil) = some (.cls ['N', 'u', 'm'] .nil) ∧
     pyUserOpTy opWitness.1 ['N', 'u', 'm'] .add = some (.cls ['N', 'u', 'm'] .nil) ∧
@@ -829,5 +839,15 @@ theorem shape_attr_indexes :
   intro t
   unfold onSpread
   cases h : t.attrs <;> rfl
+
+/-- every handler `on_…` that ProceduralResolver defines today (list generated from the source on every run) is accounted for: it has
+    an arm of `infer`, is modelled beside it, or is listed as outside the Lean model — and the three lists name nothing else. A handler
+    added, removed or renamed in reflections.py makes this theorem fail until the model's coverage is restated. -/
+theorem handlers_accounted :
+    (∀ h ∈ InferShape.handlers, h ∈ handlersInInfer ∨ h ∈ handlersBeside ∨ h ∈ handlersOutside) ∧
+    (∀ h ∈ handlersInInfer ++ handlersBeside ++ handlersOutside, h ∈ InferShape.handlers) ∧
+    (handlersInInfer ++ handlersBeside ++ handlersOutside).Nodup ∧
+    InferShape.handlers.length = 68 ∧ handlersInInfer.length = 32 ∧ handlersOutside.length = 34 := by
+  decide +kernel
 
 end Tranp.C03
